@@ -560,6 +560,55 @@ func (g *Gen) constGlobal(gl *ssa.Global, st *State) (Val, bool) {
 	switch v := init.(type) {
 	case *ssa.Const:
 		return g.constVal(v), true
+	case *ssa.Call:
+		// package-level error values: var errX = errors.New("...") -- a fixed non-nil value, distinct per variable
+		if f, ok := v.Call.Value.(*ssa.Function); ok && f.Pkg != nil && (f.Pkg.Pkg.Path() == "errors" && f.Name() == "New" || f.Pkg.Pkg.Path() == "fmt" && f.Name() == "Errorf") {
+			n := "gerr_" + san(gl.Pkg.Pkg.Name()+"_"+gl.Name())
+			id := len(g.m.extraSeen) + 1
+			g.ensureExtra(fmt.Sprintf("(declare-const %s Int)", n))
+			if !g.m.extraSeen["id:"+n] {
+				g.m.extraSeen["id:"+n] = true
+				g.m.extraDecl = append(g.m.extraDecl, fmt.Sprintf("(assert (= %s (- %d)))", n, 2000000+id))
+			}
+			return Val{S: n, Sort: "Int", G: t}, true
+		}
+	case *ssa.Slice:
+		// []byte{c0, c1, ...}: a slice of a fresh array filled with constant stores in init
+		if al, ok := v.X.(*ssa.Alloc); ok && v.Low == nil && v.High == nil {
+			if at, ok := al.Type().(*types.Pointer).Elem().Underlying().(*types.Array); ok {
+				if b, ok := at.Elem().Underlying().(*types.Basic); ok && b.Kind() == types.Uint8 {
+					vals := make([]int64, at.Len())
+					okAll := true
+					for _, ref := range *al.Referrers() {
+						ia, ok := ref.(*ssa.IndexAddr)
+						if !ok {
+							continue
+						}
+						idx, ok := ia.Index.(*ssa.Const)
+						if !ok {
+							okAll = false
+							continue
+						}
+						for _, r2 := range *ia.Referrers() {
+							if st, ok := r2.(*ssa.Store); ok {
+								if c, ok := st.Val.(*ssa.Const); ok && c.Value != nil {
+									vals[idx.Int64()] = c.Int64()
+								} else {
+									okAll = false
+								}
+							}
+						}
+					}
+					if okAll {
+						sb := make([]byte, len(vals))
+						for i, x := range vals {
+							sb[i] = byte(x)
+						}
+						return g.literalSlice(gl, string(sb), t, st), true
+					}
+				}
+			}
+		}
 	case *ssa.Convert:
 		if c, ok := v.X.(*ssa.Const); ok && c.Value != nil {
 			if _, ok := t.Underlying().(*types.Slice); ok {
@@ -582,6 +631,23 @@ func (g *Gen) constGlobal(gl *ssa.Global, st *State) (Val, bool) {
 		}
 	}
 	return Val{}, false
+}
+
+// literalSlice: a package-level byte-slice literal as a distinct old object with known contents.
+func (g *Gen) literalSlice(gl *ssa.Global, s string, t types.Type, st *State) Val {
+	ref := "gref_" + san(gl.Pkg.Pkg.Name()+"_"+gl.Name())
+	if !g.noDecl[ref] {
+		g.noDecl[ref] = true
+		g.emit("(declare-const " + ref + " Int)")
+		g.emit("(assert (and (> " + ref + " 0) (<= " + ref + " alloc_0)))")
+	}
+	h := g.heapGet(st, g.m.compSliceHeap("Int"))
+	var facts []string
+	for i := 0; i < len(s); i++ {
+		facts = append(facts, eq(sel(sel(h, ref), fmt.Sprint(i)), fmt.Sprint(s[i])))
+	}
+	g.assume(st, and(facts...))
+	return Val{S: mkSl(ref, "0", fmt.Sprint(len(s)), fmt.Sprint(len(s))), Sort: "Slice", G: t}
 }
 
 func (g *Gen) lookup(x *ssa.Lookup, st *State) {
